@@ -248,7 +248,10 @@ util::Result<SelectionResult> SelectCoinsBnB(std::vector<OutputGroup>& utxo_pool
             // selection as one we previously evaluated. In that case, increment `next_utxo` until we find a UTXO with a
             // differing amount.
             Assume(next_utxo < utxo_pool.size());
-            while (utxo_pool[next_utxo - 1].GetSelectionAmount() == utxo_pool[next_utxo].GetSelectionAmount()) {
+            // Only skip a UTXO that is no better than the omitted one in every respect: it ties on the effective value, its waste
+            // is equal or higher (sort order), and it must not be lighter either, or it may be the only one fitting the weight limit.
+            while (utxo_pool[next_utxo - 1].GetSelectionAmount() == utxo_pool[next_utxo].GetSelectionAmount() &&
+                   utxo_pool[next_utxo - 1].m_weight <= utxo_pool[next_utxo].m_weight) {
                 if (next_utxo >= utxo_pool.size() - 1) {
                     // Reached end of UTXO pool skipping clones: SHIFT instead
                     should_shift = true;
